@@ -91,7 +91,7 @@ package flyt
 //@   ensures [C04] !isBatch(node) && perr != nil ==> err != nil && Is(err, perr) && nExec == 0 && nPost == 0
 //@   ensures [C04] !isBatch(node) && (ph == 2 || ph == 3) && !sawCancel ==> err != nil && Is(err, lastErr) && nPost == 0
 //@   ensures [C04] !isBatch(node) && ph == 4 && postErr != nil ==> err != nil && Is(err, postErr)
-//@   ensures [C05] !isBatch(node) && sawCancel ==> err != nil && Is(err, ctxErr(ctx))
+//@   ensures [C05,C20] !isBatch(node) && sawCancel ==> err != nil && Is(err, ctxErr(ctx))
 //@   ensures [C05] !isBatch(node) && cancelled@entry ==> callbacks == callbacks@entry && err != nil && Is(err, ctxErr(ctx))
 
 
@@ -147,6 +147,7 @@ package flyt
 //@   loop 1 invariant [C05] cancelled@entry ==> callbacks == callbacks@entry && visits == 0
 //@   loop 1 invariant visits >= 1 || (cur == f.start && cur != nil)
 //@   loop 1 candidate !cancelled
+//@   loop 1 candidate cur != nil
 //@   ensures [C03] err == nil ==> cur == nil && visits >= 1
 //@   ensures [C10] err == nil ==> res == box(last, Action)
 //@   ensures [C04] failed ==> err == childErr && err != nil
@@ -878,7 +879,7 @@ package flyt
 //@   ghost i int = 0
 //@   loop 1 step i++
 //@   loop 1 invariant 0 <= i && i <= len(results)
-//@   loop 1 invariant [C09,C11] forall j int :: 0 <= j && j < i ==> results[j].err != nil
+//@   loop 1 invariant [C09,C11] forall k int :: soff(results) <= k && k < soff(results) + i ==> raw(results, k).err != nil
 //@   loop 1 invariant forall k int :: k < soff(results) || k >= soff(results) + len(results) ==> raw(results, k) == old(raw(results, k))
 //@   loop 1 decreases len(results) - i
 //@   ensures [C09,C11] forall k int :: soff(results) <= k && k < soff(results) + len(results) ==> raw(results, k).err != nil
